@@ -309,7 +309,9 @@ CLAIMED["C20"] = dict(
          "state set, build_expansion_state and the producer / consumer maps by visibility (viz/_common.py, modelled in VizMaps.v with theorems on what "
          "they contain) are compared with the model. Shared output names: VizProducers.complete_forest restates Graph._edges_from_every_producer "
          "(a data edge from EVERY producer of a consumed name, at every nesting level) with completeness and soundness theorems "
-         "(C20_every_producer_has_an_edge, C20_only_matches_added); the harness hands the raw nx_graph edges to the model, which completes them.",
+         "(C20_every_producer_has_an_edge, C20_only_matches_added); the harness hands the raw nx_graph edges to the model, which completes them. "
+         "Nodes created with hide=True are outside the checker's model: for graphs holding them only the self-consistency clause (every edge endpoint is a "
+         "declared node / id of that state) is decided, by an oracle over both views (fix 0111817).",
     design_ref="DESIGN.md section 5 C20",
     note="partial: faithfulness of the renderer is translation validation per generated drawing by a proved checker, not a theorem about "
          "renderer code (viz/renderer/*.py, mermaid.py are heuristic and not modelled); known findings F-k (values renamed at container "
